@@ -12,7 +12,7 @@ variable {K : Type} [Field K]
 /-- unfold generated definitions and the specification vocabulary down to field expressions -/
 macro "c23_unfold" loc:(Lean.Parser.Tactic.location)? : tactic =>
   `(tactic| simp only [gen_simp, tensv, mandv, dot, act, rowsOf, i3, i4, i5, i6, i9, List.map, plane, dg,
-      upper, lower, symm, dE, dC, kirch, lamS, lamSM, lamTr, lamJ, lamAb, lamTau, lamSig, lamP,
+      upper, lower, symLower, symm, dE, dC, kirch, lamS, lamSM, lamTr, lamJ, lamAb, lamTau, lamSig, lamP,
       M3.mandel3, M3.mandel2, M3.mandel1, M3.ofMandel, M3.tens3, M3.tens2, M3.tens1,
       M3.ofTens, M3.sym, M3.diag, M3.mul_def, M3.mul, M3.one_def, M3.one, M3.add_def, M3.add, M3.sub_def, M3.sub,
       M3.smul_def, M3.smul, M3.transpose, M3.outer, M3.trace, M3.det, M3.frob, M3.mk.injEq,
@@ -37,7 +37,7 @@ macro "c23_poly" hc:term : tactic =>
 
 /-- all components, rational case with the traced denominator `hd : den ≠ 0` made an atom -/
 macro "c23_rat" hc:term " with " hd:ident : tactic =>
-  `(tactic| (c23_unfold at $hd:ident; c23_unfold; generalize_ne $hd => e he
+  `(tactic| ((try c23_unfold at $hd:ident); c23_unfold; generalize_ne $hd => e he
              (try (repeat' apply And.intro))
              all_goals (first | rfl | (field_simp; (try simp only [← he]); c23_ring $hc))))
 
@@ -58,6 +58,49 @@ theorem dg_det_ne {f0 f1 f2 : K} (h : (dg f0 f1 f2).det ≠ 0) : f0 ≠ 0 ∧ f1
   rw [dg_det] at h
   exact ⟨left_ne_zero_of_mul (left_ne_zero_of_mul h), right_ne_zero_of_mul (left_ne_zero_of_mul h),
     right_ne_zero_of_mul h⟩
+
+
+/-! ### a little algebra of explicit 3×3 matrices (cancellation by an invertible matrix) -/
+/-- all components of an `M3` identity that is a plain polynomial identity -/
+macro "m3_poly" : tactic =>
+  `(tactic| (c23_unfold; (try (repeat' apply And.intro)); all_goals ring1))
+
+/-- adjugate (transposed cofactor matrix) -/
+def adj (A : M3 K) : M3 K :=
+  ⟨A.a11 * A.a22 - A.a12 * A.a21, A.a02 * A.a21 - A.a01 * A.a22, A.a01 * A.a12 - A.a02 * A.a11,
+   A.a12 * A.a20 - A.a10 * A.a22, A.a00 * A.a22 - A.a02 * A.a20, A.a02 * A.a10 - A.a00 * A.a12,
+   A.a10 * A.a21 - A.a11 * A.a20, A.a01 * A.a20 - A.a00 * A.a21, A.a00 * A.a11 - A.a01 * A.a10⟩
+theorem adj_mul (A : M3 K) : adj A * A = A.det • (1 : M3 K) := by
+  obtain ⟨a00,a01,a02,a10,a11,a12,a20,a21,a22⟩ := A; simp only [adj]; m3_poly
+theorem mul_adj (A : M3 K) : A * adj A = A.det • (1 : M3 K) := by
+  obtain ⟨a00,a01,a02,a10,a11,a12,a20,a21,a22⟩ := A; simp only [adj]; m3_poly
+theorem m3_mul_assoc (A B C : M3 K) : A * B * C = A * (B * C) := by
+  obtain ⟨a00,a01,a02,a10,a11,a12,a20,a21,a22⟩ := A
+  obtain ⟨b00,b01,b02,b10,b11,b12,b20,b21,b22⟩ := B
+  obtain ⟨c00,c01,c02,c10,c11,c12,c20,c21,c22⟩ := C
+  m3_poly
+theorem smul_one_mul (k : K) (X : M3 K) : (k • (1 : M3 K)) * X = k • X := by
+  obtain ⟨a00,a01,a02,a10,a11,a12,a20,a21,a22⟩ := X; m3_poly
+theorem mul_smul_one (k : K) (X : M3 K) : X * (k • (1 : M3 K)) = k • X := by
+  obtain ⟨a00,a01,a02,a10,a11,a12,a20,a21,a22⟩ := X; m3_poly
+theorem smul_cancel {k : K} (hk : k ≠ 0) {A B : M3 K} (h : k • A = k • B) : A = B := by
+  obtain ⟨a00,a01,a02,a10,a11,a12,a20,a21,a22⟩ := A
+  obtain ⟨b00,b01,b02,b10,b11,b12,b20,b21,b22⟩ := B
+  simp only [M3.smul_def, M3.smul, M3.mk.injEq] at h ⊢
+  obtain ⟨h0,h1,h2,h3,h4,h5,h6,h7,h8⟩ := h
+  exact ⟨mul_left_cancel₀ hk h0, mul_left_cancel₀ hk h1, mul_left_cancel₀ hk h2, mul_left_cancel₀ hk h3,
+    mul_left_cancel₀ hk h4, mul_left_cancel₀ hk h5, mul_left_cancel₀ hk h6, mul_left_cancel₀ hk h7,
+    mul_left_cancel₀ hk h8⟩
+theorem mul_left_cancel_det {F X Y : M3 K} (hJ : F.det ≠ 0) (h : F * X = F * Y) : X = Y := by
+  have e : adj F * (F * X) = adj F * (F * Y) := by rw [h]
+  rw [← m3_mul_assoc, ← m3_mul_assoc, adj_mul, smul_one_mul, smul_one_mul] at e
+  exact smul_cancel hJ e
+theorem mul_right_cancel_det {F X Y : M3 K} (hJ : F.det ≠ 0) (h : X * F = Y * F) : X = Y := by
+  have e : X * F * adj F = Y * F * adj F := by rw [h]
+  rw [m3_mul_assoc, m3_mul_assoc, mul_adj, mul_smul_one, mul_smul_one] at e
+  exact smul_cancel hJ e
+theorem det_transpose (A : M3 K) : A.transpose.det = A.det := by
+  obtain ⟨a00,a01,a02,a10,a11,a12,a20,a21,a22⟩ := A; simp only [M3.transpose, M3.det]; ring
 
 /-! ### linearity of the action in the stored second-order object -/
 theorem dot_add (r v w : List K) (h : v.length = w.length) :
